@@ -508,6 +508,12 @@ pub fn gen_errspec(r: &mut Rng) -> ErrSpec {
 
 /// Apply the chosen injectors (by index) to a fresh build; returns the case and the names actually applied.
 pub fn build_case(l: &Logical, cfg: &Cfg, chosen: &[usize], r: &mut Rng, sp: &mut Speller) -> (Case, Vec<&'static str>) {
+    let (case, applied, _) = build_case_facts(l, cfg, chosen, r, sp);
+    (case, applied)
+}
+
+/// As `build_case`, also handing back what the reference signer computed for the request as rendered.
+pub fn build_case_facts(l: &Logical, cfg: &Cfg, chosen: &[usize], r: &mut Rng, sp: &mut Speller) -> (Case, Vec<&'static str>, crate::gen::Facts) {
     let mut b = Build {
         l: l.clone(),
         cfg: cfg.clone(),
@@ -522,7 +528,7 @@ pub fn build_case(l: &Logical, cfg: &Cfg, chosen: &[usize], r: &mut Rng, sp: &mu
             applied.push(inj.name);
         }
     }
-    let (mut case, _) = make_case(&b.l, &b.cfg, sp, &b.ov, b.delta_ns);
+    let (mut case, facts) = make_case(&b.l, &b.cfg, sp, &b.ov, b.delta_ns);
     if let Some((ready, e)) = b.script_edit {
         let mut s: Script = case.script.clone();
         if ready {
@@ -532,7 +538,7 @@ pub fn build_case(l: &Logical, cfg: &Cfg, chosen: &[usize], r: &mut Rng, sp: &mu
         }
         case.script = s;
     }
-    (case, applied)
+    (case, applied, facts)
 }
 
 pub fn injector_stage(name: &str) -> Option<Stage> {
